@@ -69,7 +69,7 @@ type checkOut struct {
 	Q    int    `json:"q"`
 	D    int    `json:"d,omitempty"`
 	Base string `json:"base,omitempty"`
-	N    int    `json:"n,omitempty"`
+	N    int    `json:"n"`
 	FT   string `json:"ft,omitempty"` // k-th call fails once
 	FP   string `json:"fp,omitempty"` // every call from the k-th on fails
 	FC   string `json:"fc,omitempty"` // k-th call fails with context.Canceled
